@@ -205,6 +205,11 @@ def _are_sets_equal(x, y, _exact_strings, _delta):
     for x_element in x:
         if not _set_contains(x_element, y, _exact_strings, _delta):
             return False
+    # ... and the other way round: with a tolerance, every element of x
+    # having a partner in y does not mean every element of y has one in x
+    for y_element in y:
+        if not _set_contains(y_element, x, _exact_strings, _delta):
+            return False
     return True
 
 
